@@ -624,6 +624,12 @@ _ADDED7 = {'C02': ' Round 10: initial worker counts up to 2^64-1.',
 for _k, _v in _ADDED7.items():
     PROPS[_k]["rule"] += _v
 
-_ADDED8 = {'C06': ' Round 11: transports that answer after reading only a prefix (0, 1, 9, ... bytes) of the request body - bytes-out is the request body length all the same.'}
+_ADDED8 = {'C05': ' Round 11: attacks that start with 1 or 2 workers and grow their pool up to the maximum while running.',
+           'C06': ' Round 11: transports that answer after reading only a prefix (0, 1, 9, ... bytes) of the request body - bytes-out is the request body length all the same.',
+           'C07': ' Round 11: instants before 1970 (back to 1684), where the seconds are negative and the nanosecond part still counts upwards.',
+           'C08': ' Round 11: instants before 1970 (back to 1684).',
+           'C09': ' Round 11: instants before 1970 (back to 1684).',
+           'C10': ' Round 11: the optional latency histogram attached to the report, with 1..4 bounds at and around the latencies of the case that need not start at 0 - no metric changes.',
+           'C13': ' Round 11: instants before 1970 (back to 1684).'}
 for _k, _v in _ADDED8.items():
     PROPS[_k]["rule"] += _v
